@@ -249,6 +249,8 @@ mod container {
         const NAME: &'static str;
         fn mk(a: f64, b: f64) -> Self;
         fn parts(&self) -> [f64; 2];
+        /// same real part as `other`, own derivative part (identity for floats)
+        fn with_re_of(&self, other: &Self) -> Self;
     }
     impl El for f64 {
         const NAME: &'static str = "f64";
@@ -258,6 +260,9 @@ mod container {
         fn parts(&self) -> [f64; 2] {
             [*self, 0.0]
         }
+        fn with_re_of(&self, other: &Self) -> Self {
+            *other
+        }
     }
     impl El for Dual64 {
         const NAME: &'static str = "Dual64";
@@ -266,6 +271,9 @@ mod container {
         }
         fn parts(&self) -> [f64; 2] {
             [self.re, self.eps]
+        }
+        fn with_re_of(&self, other: &Self) -> Self {
+            Dual64::new(other.re, self.eps)
         }
     }
 
@@ -315,11 +323,22 @@ mod container {
             }
             let mut rng = Rng::stream(ctx.seed, 7700 + sidx, round);
             for ra in 0..3usize {
-                for rb in 0..3usize {
+                // rb = 3: values whose real parts coincide element by element with those of a (for
+                // dual elements the derivative parts still differ: `==` on them sees equality)
+                for rb in 0..4usize {
+                    if rb == 3 && ra != 2 {
+                        continue;
+                    }
                     let (a, ma) = operand::<T, R, C>(&mut rng, r, c, ra);
-                    let (b, mb) = operand::<T, R, C>(&mut rng, r, c, rb);
+                    let (mut b, mut mb) = operand::<T, R, C>(&mut rng, r, c, rb.min(2));
+                    if rb == 3 {
+                        for (eb, ea) in mb.iter_mut().zip(ma.iter()) {
+                            *eb = eb.with_re_of(ea);
+                        }
+                        b = Derivative::some(mb.clone());
+                    }
                     let s = T::mk(*rng.choose(&[0.5, -0.5, 2.0, -2.0, 4.0, 0.25, 1.0, -1.0]), dy(&mut rng));
-                    let reps = format!("{}{}", ["absent", "zeros", "values"][ra], ["-absent", "-zeros", "-values"][rb]);
+                    let reps = format!("{}{}", ["absent", "zeros", "values"][ra], ["-absent", "-zeros", "-values", "-values-with-equal-real-parts"][rb]);
                     let check = |acc: &mut Acc, op: &str, got: Result<OMatrix<T, R, C>, String>, want: OMatrix<T, R, C>| {
                         acc.observe(&format!("container|{}|{}|{}", tag, op, reps), ra == 0 || rb == 0);
                         match got {
@@ -356,7 +375,7 @@ mod container {
                         check(&mut acc, "div_assign_scalar", guarded(|| { let mut t = a.clone(); t /= s; un(t) }), ma.map(|x| x / s));
                     }
                     // products: (R,C)*(C,R) -> (R,R) and tr_mul: (R,C)^T (R,C) -> (C,C)
-                    let (bt, mbt) = operand::<T, C, R>(&mut rng, c, r, rb);
+                    let (bt, mbt) = operand::<T, C, R>(&mut rng, c, r, rb.min(2));
                     acc.observe(&format!("container|{}|matmul|{}", tag, reps), ra == 0 || rb == 0);
                     let want = {
                         let mut w = OMatrix::<T, R, R>::zeros_generic(r, r);
